@@ -121,6 +121,10 @@ func c05Run(e *Env, concurrent bool) {
 		case "/pig":
 			_ = rw.SetResponse(codes.Content, message.TextPlain, bytes.NewReader([]byte(fmt.Sprintf("pig-%d-run%d", n, runs))),
 				message.Option{ID: message.MaxAge, Value: []byte{byte(n + 1)}})
+		case "/empty":
+			// the explicit spelling of "I will answer later": the handler sets the Empty message itself
+			e.Probe("handler.explicitEmpty")
+			_ = rw.SetResponse(codes.Empty, message.TextPlain, nil)
 		case "/none", "/sep":
 			if takesOver {
 				r.Hijack()
@@ -161,7 +165,8 @@ func c05Run(e *Env, concurrent bool) {
 		}
 		// match replies to requests: ACK by MID, other responses by token
 		for _, rq := range reqs {
-			if (m.Type == TACK && m.MID == rq.mid && rq.typ == TCON) || (m.Code > 4 && m.Code != 0 && len(m.Token) > 0 && bytes.Equal(m.Token, rq.token) && m.Type != TACK) {
+			if (m.Type == TACK && m.MID == rq.mid && rq.typ == TCON) || (m.Code > 4 && m.Code != 0 && len(m.Token) > 0 && bytes.Equal(m.Token, rq.token) && m.Type != TACK) ||
+				(rq.path == "/empty" && rq.typ == TNON && m.Type == TNON && m.Code == 0 && bytes.Equal(m.Token, rq.token)) {
 				if rq.sepSent && m.Type == TCON && bytes.HasPrefix(m.Payload, []byte("sep-")) {
 					continue // the separate response of the application, not a reply of the de-duplication layer
 				}
@@ -187,7 +192,7 @@ func c05Run(e *Env, concurrent bool) {
 		}
 		e.NonTrivial()
 		age := now - rq.t0
-		exempt := rq.typ == TNON && rq.path != "/pig" // NON request without reply: never entered
+		exempt := rq.typ == TNON && rq.path != "/pig" && rq.path != "/empty" // NON request without reply: never entered
 		switch {
 		case exempt:
 			rq.maxRuns++
@@ -224,7 +229,7 @@ func c05Run(e *Env, concurrent bool) {
 				n := len(reqs)
 				rq := &c05Req{nonce: n, token: []byte{0x10, byte(n)}}
 				rq.typ = []int{TCON, TNON}[t.Choose(2)]
-				rq.path = []string{"/pig", "/none", "/sep"}[t.Choose(3)]
+				rq.path = []string{"/pig", "/none", "/sep", "/empty"}[t.Weighted(3, 3, 3, 1)]
 				// message ID: fresh counter value, or equal to one of the endpoint's own outgoing IDs
 				rq.mid = uint16(1000 + 7*n)
 				if len(epOwnMIDs) > 0 && t.Chance(1, 3) {
